@@ -13,7 +13,7 @@ const P: &str = "C01";
 
 fn targets() -> Vec<Target> {
     let mut t: Vec<Target> = PARAM_CMDS.iter().map(|b| Target::Cmd(*b)).collect();
-    t.extend(STANDALONE.iter().map(|n| Target::Alone(n)));
+    t.extend(STANDALONE.iter().take(STANDALONE_STRUCTS).map(|n| Target::Alone(n)));
     t
 }
 
